@@ -426,3 +426,7 @@ func main() {
 	r.Set("rule", "explicit-state BFS to fixpoint from the zero value, values {0,2} (the element type's zero value is data like any other), size bound as given; the fingerprint includes the stack's hidden capacity region; after every transition the container is drained and compared element by element with a slice model, then reused; plus fill/drain saw-tooth families up to thousands of elements (capacity-dependent paths), a one-pass fill of one stack and one queue to 2^21+77 (thorough 2^24+77) values with Len/Peek checked after every call, a half drain, a refill by as many values again and a complete drain, PLUS deterministic families beyond the exhaustive bound (large sizes, every single/double removal from trees built in 7 orders, long one-instance churn histories): see the *_family_* counters")
 	r.Finish()
 }
+
+// ModelKey is the layout-independent state key (see seqmc.ModelKeyer).
+func (s *qh) ModelKey() string { return fmt.Sprint(s.model) }
+func (s *sh) ModelKey() string { return fmt.Sprint(s.model) }
